@@ -46,7 +46,7 @@ def _nonempty_guarded(fn, p):
     return False
 
 
-def pending_without_waker(fn, nonempty_guard=False):
+def pending_without_waker(fn, nonempty_guard=False, tracker=None, extra_avoid=()):
     """-> list of (exit_node, witness_path) for Pending exits reachable without waker / inner Pending"""
     polls = inner_polls(fn)
     wakers = [c.node for c in fn.calls(WAKER_RX)]
@@ -66,7 +66,10 @@ def pending_without_waker(fn, nonempty_guard=False):
     pend = [(n, sh) for n, sh in fn.exits(r"Pending") if any(s.startswith("Pending") for s in sh)]
     out = []
     for n, sh in pend:
-        path = fn.witness_path([fn.entry], [n], avoid=wakers, cut=cuts)
+        if tracker is not None:
+            path = tracker.witness([fn.entry], [n], avoid=set(wakers) | set(extra_avoid), cut=cuts)
+        else:
+            path = fn.witness_path([fn.entry], [n], avoid=set(wakers) | set(extra_avoid), cut=cuts)
         if path is not None:
             out.append((n, path))
     return out, len(polls), len(wakers), len(pend)
